@@ -46,7 +46,7 @@ Serve(k, r) ==
 
 PNext ==
     \/ \E d \in 1..2 : PTick(d)
-    \/ (calls < MaxCalls /\ Arrive) \/ (ph = 0 /\ calls >= MaxCalls /\ FALSE)
+    \/ (calls < MaxCalls /\ Arrive)
     \/ Reject
     \/ \E k \in 1..MaxAttempts, r \in Results : Serve(k, r)
 
